@@ -343,3 +343,65 @@ func VP_C01_encode_history() {
 	}
 	vp.Cover("end")
 }
+
+// one Decoder / one Encoder used for several documents: two documents in one
+// stream are decoded by one Decoder exactly as by two fresh ones (the first
+// result is still intact after the second was decoded - no aliasing of scratch
+// space), one Encoder writes the concatenation of the separate encodings, and
+// after an Encode that failed the next Encode writes its own document only.
+func VP_C01_codec_reuse() {
+	a, b := vp.Int32(), vp.Int32()
+	s1, s2 := string(vp.Bytes(2)), string(vp.Bytes(1))
+	vp.Assume(vpASCII(s1) && vpASCII(s2))
+	type T struct {
+		A int32   `nbt:"a"`
+		S string  `nbt:"s"`
+		I []int32 `nbt:"i"`
+		Y []byte  `nbt:"y"`
+	}
+	v1 := T{A: a, S: s1, I: []int32{a, b}, Y: []byte{1, 2}}
+	v2 := T{A: b, S: s2, I: []int32{b}, Y: []byte{9}}
+	enc1 := func(v any) []byte {
+		var w vpBuf
+		vp.Assert(NewEncoder(&w).Encode(v, "") == nil, "Encode err==nil")
+		return w.b
+	}
+	d1, d2 := enc1(v1), enc1(v2)
+	if vp.Choice(2) == 0 {
+		var w vpBuf
+		e := NewEncoder(&w)
+		if vp.Bool() {
+			// a value the encoder refuses (a string beyond the length prefix), written in part or not at all
+			_ = e.Encode(string(vp.Noise(40000)), "")
+			w.b = nil
+		}
+		vp.Assert(e.Encode(v1, "") == nil && e.Encode(v2, "") == nil, "Encode err==nil")
+		vp.Assert(string(w.b) == string(d1)+string(d2), "one Encoder writes the concatenation of the separate encodings")
+	} else {
+		r := &vpByteReader{b: append(append(append([]byte{}, d1...), d2...), 0x42)}
+		d := NewDecoder(r)
+		var g1, g2 T
+		var any1 any
+		useAny := vp.Bool()
+		var err error
+		if useAny {
+			_, err = d.Decode(&any1)
+		} else {
+			_, err = d.Decode(&g1)
+		}
+		vp.Assert(err == nil && r.pos == len(d1), "first document: consumed exactly")
+		_, err = d.Decode(&g2)
+		vp.Assert(err == nil && r.pos == len(d1)+len(d2), "second document: consumed exactly")
+		vp.Assert(g2.A == b && g2.S == s2 && len(g2.I) == 1 && g2.I[0] == b && len(g2.Y) == 1 && g2.Y[0] == 9, "second document decodes to its value")
+		if useAny {
+			m, ok := any1.(map[string]any)
+			vp.Assert(ok, "first document still intact after the second was decoded")
+			i, _ := m["i"].([]int32)
+			y, _ := m["y"].([]byte)
+			vp.Assert(m["a"] == any(a) && m["s"] == any(s1) && len(i) == 2 && i[0] == a && i[1] == b && len(y) == 2 && y[0] == 1 && y[1] == 2, "first document still intact after the second was decoded")
+		} else {
+			vp.Assert(g1.A == a && g1.S == s1 && len(g1.I) == 2 && g1.I[0] == a && g1.I[1] == b && len(g1.Y) == 2 && g1.Y[0] == 1 && g1.Y[1] == 2, "first document still intact after the second was decoded")
+		}
+	}
+	vp.Cover("end")
+}
